@@ -294,8 +294,9 @@ func equalStr(a, b []string) bool {
 
 func main() {
 	r = ev.Start("C12", "model_checking")
-	chains := []uint16{1, 2, 10, 255}
-	targets := []uint16{0, 2, 4, 20, 25, 42, 255, 2550}
+	// 258 = 2 + 256, 511 = 255 + 256, 10001 = 17 + 39*256: chain ids that coincide once narrowed to 8 bits
+	chains := []uint16{1, 2, 10, 255, 258, 511}
+	targets := []uint16{0, 2, 4, 17, 20, 25, 42, 255, 258, 2550, 10001}
 	seqs := []uint64{0, 1, 2, 9, 10, 11}
 	var queryIDs, triples []id
 	for _, c := range chains {
@@ -316,6 +317,7 @@ func main() {
 		{10, 1, 0, 1}, {2, 1, 2, 1}, // governance ADDRESS on another chain: not governance
 		{2, 2, 2, 1}, {1, 2, 0, 1}, // a third emitter address
 		{2, 0, 2, 0}, {2, 0, 2, 2}, {2, 0, 20, 0}, {255, 0, 255, 10}, {10, 0, 20, 9}, {1, 1, 4, 1},
+		{2, 0, 258, 1}, {258, 0, 2, 1}, {2, 0, 17, 1}, {2, 0, 10001, 1}, {511, 0, 2, 1}, // 8-bit aliases of {2,0,2,1}, {2,0,17,1}, {255,0,2,1}
 	}
 	r.Set("storable_ids", len(storable))
 	maxK := r.Pick(3, 4)
